@@ -20,6 +20,7 @@ type Case struct {
 	Reg    []RegOp `json:"reg,omitempty"` // registry history (C12)
 	Fcx    *FcxCase `json:"fcx,omitempty"` // unit-level flow-control explorer case
 	Par    *ParCase `json:"par,omitempty"` // parallel (free-running) flow-control case
+	StableRounds int `json:"stable_rounds,omitempty"` // registry under parallelism: once the set of tunnels is stable, this many x n RPCs are issued through AsChannel() from 8 goroutines
 	Tape   []int   `json:"tape,omitempty"`
 	Free   bool    `json:"free,omitempty"` // run free (stress engine) instead of stepped
 	Note   string  `json:"note,omitempty"`
@@ -44,6 +45,7 @@ type TunnelSpec struct {
 	Peer   string              `json:"peer,omitempty"`   // peer address the handler side sees
 	CtxVal string              `json:"ctxval,omitempty"` // interceptor-set context value
 	IcptMD map[string][]string `json:"icpt_md,omitempty"` // outgoing metadata a client stream interceptor adds to the tunnel-opening call
+	SrvOutMD map[string][]string `json:"srv_out_md,omitempty"` // outgoing metadata a server stream interceptor puts into the context of the tunnel-opening call as the network server sees it (trace propagation, say)
 	Server int                 `json:"server,omitempty"` // reverse: index of the ReverseTunnelServer instance that serves this tunnel
 }
 
@@ -83,6 +85,8 @@ type RPC struct {
 	NoCancelCtx bool            `json:"no_cancel_ctx,omitempty"` // the caller's context can never be cancelled (context.Background() plus values)
 	ReuseMsg  bool              `json:"reuse_msg,omitempty"` // each side receives every message into one re-used message object
 	ChanOpt2  bool              `json:"chan_opt2,omitempty"` // a second WithTunnelChannel option on the same call
+	RecvUnknown bool            `json:"recv_unknown,omitempty"` // both sides receive into a message type that does not know the payload field (a relay, an older schema): the bytes must survive as unknown fields
+	Opt2      bool              `json:"opt2,omitempty"` // every grpc.Header / grpc.Trailer / grpc.Peer option is passed twice, with a location of its own
 	GrpcTimeoutNoValues bool    `json:"grpc_timeout_no_values,omitempty"` // the grpc-timeout key is present with an empty value list
 	CtxCause  bool              `json:"ctx_cause,omitempty"` // the caller's context is built with WithCancelCause / WithTimeoutCause and ended with an application-defined cause
 	CancelAtReturnUs int        `json:"cancel_at_return_us,omitempty"` // free-running engines: the caller's context is cancelled this many microseconds after the handler decided to return
@@ -123,6 +127,7 @@ type Event struct {
 	Target int    `json:"target,omitempty"` // tunnel / rpc / server index
 	After  int    `json:"after"`            // trigger: forced when the number of delivered carrier frames reaches After (if AtStep is false) or at scheduler step After
 	AtStep bool   `json:"at_step,omitempty"`
+	AfterEv int   `json:"after_ev,omitempty"` // if > 0: fires After scheduler steps after event #(AfterEv-1) fired
 	Ms     int64  `json:"ms,omitempty"` // advance
 }
 
